@@ -262,7 +262,7 @@ def run(ctx, driver):
     ctx.rule = ("(a) scripted runs: real integrate_ode(debug=True) on 3 numeric systems x random sim_time / max_step (dyadic) / spike maps "
                 "(coincident, at sim_time, beyond it) x both aliasing modes, stepper dictated by a pure script shared with the Lean model; "
                 "(b) numerical runs through the RK4 / implicit-midpoint stand-in: event and bound checks on 4 analysed systems; distinct = distinct cases; "
-                "non-trivial = at least one spike before sim_time or an active bound")
+                "non-trivial = at least one spike before sim_time or an active bound; (c) MixedIntegrator given run-time parameters that differ from the analysis-time ones (half of the runs on a re-ordered analytic dictionary): the analytic values against an exact mpmath reference under the given parameters")
     rng = ctx.rng("script")
     cases = [c["case"] for c in ctx.corpus() if "case" in c and "rates" in c["case"]]
     cases += [gen_script_case(rng) for _ in range(ctx.n(60, 1500))]
